@@ -241,15 +241,21 @@ pub(super) fn anchor_split(
     let mut cid_redirects = HashMap::<CId, CId>::new();
     let mut new_columns = Vec::new();
     let mut used_new_names = HashSet::new();
+    // names that columns already have: a name generated here must not take one of them
+    // (a user column can be called `_expr_N`)
+    let named_before: HashSet<String> = cols_at_split
+        .iter()
+        .filter_map(|cid| ctx.column_name(*cid))
+        .collect();
     for old_cid in cols_at_split {
         let new_cid = ctx.cid.gen();
 
+        let generated = ctx.column_name(*old_cid).is_none();
         let old_name = ctx.ensure_column_name(*old_cid).cloned();
 
         let mut new_name = old_name;
         if let Some(new) = &mut new_name {
-            // a generated name can itself be taken (by a user column called `_expr_N`)
-            while used_new_names.contains(new) {
+            while used_new_names.contains(new) || (generated && named_before.contains(new)) {
                 *new = ctx.col_name.gen();
                 ctx.column_names.insert(*old_cid, new.clone());
             }
